@@ -46,6 +46,10 @@ def parse_pretty(text):
                 shown, src = int(mm.group(1)), mm.group(2)
                 mk = re.match(r"^ +\| ?(.*)$", lines[i + 2])
                 marker = mk.group(1) if mk else None
+                # the three rows of an excerpt share one gutter: the bars are in one column
+                bars = [lines[i].index("|"), lines[i + 1].index("|"), lines[i + 2].index("|") if "|" in lines[i + 2] else -1]
+                if len(set(bars)) != 1:
+                    marker = "\x00misaligned gutter: bars in columns %s" % bars
                 i += 3
             items.append((m.group(1), m.group(2), path, shown, src, marker))
             if i < len(lines) and lines[i] == "":
@@ -215,6 +219,9 @@ def run(ctx):
                     break
                 if shown != e[3] + 1 or src != raw.strip("".join(chr(c) for c in WS)):
                     bad = "the excerpt shows line %r %r, the diagnostic refers to line %d %r" % (shown, src, e[3] + 1, raw)
+                    break
+                if marker is not None and marker.startswith("\x00"):
+                    bad = "line %d: %s" % (e[3] + 1, marker[1:])
                     break
                 fnw = next((i for i, c in enumerate(raw) if ord(c) not in WS), 0)
                 carets = [i + fnw for i, c in enumerate(marker or "") if c == "^"]
